@@ -816,6 +816,9 @@ class Interp:
             if name in ('title', 'column', 'row') and base.tag.startswith('tok:') and base.tag.split('#')[0] in self.handled:
                 return NumV('coord', (name, base.origin, base.tag))
             if name in ('title', 'column', 'row', 'value'):
+                if name == 'value' and base.tag.startswith('tok:'):
+                    # the stored value of a workbook cell that a reference token denotes is read while translating
+                    self.effects.append(Effect('cell-value-read', {'cell': base, 'where': self.where()}, node))
                 v = getattr(base, name)
                 if isinstance(v, Thunk):
                     self.fn_stack.append(v.fn) if v.fn is not None else None
